@@ -496,7 +496,9 @@ func (f *FnVC) instr(ins ssa.Instruction) {
 	case *ssa.Select:
 		f.selectStmt(x)
 	case *ssa.Send:
-		// no model of channel contents
+		// no model of channel contents; a ghost counter records that a value was sent
+		h := f.regHeap("Gh_chanSends", "Int")
+		f.setHeap(h, "(+ "+f.st.get(h)+" 1)")
 	case *ssa.If:
 		c := f.val(x.Cond).T
 		r := f.curReach()
